@@ -794,7 +794,7 @@ def k_memo_tables(chk, ctx, rng, tier):
                 chk.l3(('memo-table', cache))
                 if not same_value(got, a['ref'](args(t))):
                     chk.fail('memo-table:%s' % cache, '%s: call %d of the history %s returns a value that is not the value of its own arguments %s' % (cache, pos, hist[:pos + 1], dict(zip(used, t))),
-                             dict(cache=cache, inputs=used, history=hist[:pos + 1]))
+                             dict(cache=cache, inputs=used, history=hist[:pos + 1], arguments={u: (repr(v) if not callable(v) else 'model function #%d' % c) for (u, v), c in zip(args(t).items(), t)}))
                 if bad is None and not same_value(got, a['ref'](args(m))):
                     who = [h for h in hist[:pos + 1] if same_value(got, a['ref'](args(h)))]
                     bad = (pos, 'call %d with %s returns the value of %s; the model returns the value of %s' % (pos, dict(zip(used, t)), [dict(zip(used, w)) for w in who[:1]] or 'no call of the history', dict(zip(used, m))))
@@ -860,12 +860,22 @@ def layout_isolated(chk, ctx, tier):
 
 def run(chk, ctx):
     tier = ctx['tier']; rng = common.Rng(ctx['seed'], 'C20')
-    chk.rule = ('(i) random interleavings (length 2-40, repeated calls) of 30 kinds of API calls vs each call in a fresh interpreter, results hashed bit-for-bit; '
+    chk.rule = ('(i) random interleavings (length 2-40, repeated calls) of 33 kinds of API calls (incl. uncertainty calls on one shared model function with parameters / sample sizes / '
+                'grids from small pools) vs each call in a fresh interpreter, results hashed bit-for-bit; (i\') for every memo table and EVERY input of its cached computation '
+                '(generated table: usedParams) two otherwise identical calls differing in that input alone, both orders, repeated, vs a fresh interpreter (direct calls, the public '
+                'paths project / from_phi / from_phi_inbreeding, and FIM/GIM/get_godambe/LRT/Wald/score with multinom False and True: function object, one parameter, sample '
+                'size, one grid point, whole grid, grid length, step, data); every memo entry recomputed from its key afterwards; '
                 '(ii) same sequence under several PYTHONHASHSEED values; (iii) C/F/strided/negatively-strided/transposed layouts of phi and of the grid for every integrator '
                 '(constant and time-dependent drivers, zero and positive duration), from_phi and Spectrum methods; (iv) byte comparison of every array/list argument before/after '
-                'and np.shares_memory(result, argument). non-trivial = distinct (clause, function, layout) keys')
+                'and np.shares_memory(result, argument); (iv\') for the uncertainty calls (all ten functions of Godambe, multinom x log x option flags x generic / integral / boundary / '
+                'tiny parameters), likelihoods and residuals (plain, folded, masked, unmasked corners, integer data, strided), objective functions, optimisers (2 iterations), '
+                'perturb_params / _project_params and list-taking Spectrum methods: every sequence argument in turn as list, tuple, float64 array, strided float64 view, list of numpy '
+                'scalars, int64 array, int list: deep byte snapshot of ALL arguments before/after, second call with the same objects bit-identical, value equal to the float-list call. '
+                'K: real memo tables vs the Lean table model (Driver/Memo.lean) on histories base / one-input-changed / base. non-trivial = distinct (clause, function, option, argument, container) keys')
     chk.unproved = ['hash-seed independence, memory-layout independence, object identity and aliasing are runtime facts: monitored (L3), not provable in a pure model',
-                    'the effect table is a conservative syntactic analysis (tools/gen_Effects.py), not a semantic proof; dynamic dispatch and C-level writes are covered by the byte comparisons only']
+                    'the effect table is a conservative syntactic analysis (tools/gen_Effects.py: alias roots through asarray/ravel/reshape/array(copy=False)/masked-array constructors, nested functions '
+                    'and closure variables, interprocedural summaries within the audited modules), not a semantic proof; dynamic dispatch, loop variables bound to elements and C-level writes are '
+                    'covered by the byte comparisons only']
     chk.assumptions.append('fresh-interpreter reference runs use the same scratch build of dadi')
     layout_isolated(chk, ctx, tier)
     k_memo(chk, ctx, rng)
